@@ -20,6 +20,8 @@ THEOREMS = [
     "Mesa.Legacy.C09_cached_neighbors_with_moves",
     "Mesa.Legacy.C09_hex_get_neighbors_exact",
     "Mesa.Legacy.C09_neighbors_whatever_truth_value",
+    "Mesa.Legacy.C09_contents_read_by_comparison_with_default",
+    "Mesa.Legacy.C09_truthiness_test_loses_falsy_agents",
     "Mesa.Legacy.C09_neighbors_spec",
     "Mesa.Legacy.C09_get_neighbors_exact",
     "Mesa.Legacy.C09_network_spec",
